@@ -214,20 +214,58 @@ class DerivOracle:
             for i, Ni in Ns[d].items():
                 rec(d + 1, idxs + [i], coef * Ni)
         rec(0, [], 1)
-        self.pos = num if W is None else [x / den for x in num]
+        self.num = num
+        self.den = den if W is not None else None
+        self._pos = None
+
+    @property
+    def pos(self):
+        if self._pos is None:
+            self._pos = self.num if self.den is None else [x / self.den for x in self.num]
+        return self._pos
+
+    def _finish(self, f):
+        core = self.core
+        if not self.cx.symbolic:
+            for v, val in zip(self.vars, self.prm):
+                f = core.subst(f, v, core.SymReal.const(Fraction(val)))
+            f = float(f.cval())
+        return f
+
+    def _dpoly(self, f, orders):
+        core = self.core
+        f = core.sym(f)
+        for v, k in zip(self.vars, orders):
+            if k:
+                f = core.diff(f, v, k)
+        return self._finish(f)
+
+    def Dnum(self, *orders):
+        """mixed partial of the (polynomial) numerator vector  A = sum N w P"""
+        return [self._dpoly(c, orders) for c in self.num]
+
+    def Dden(self, *orders):
+        """mixed partial of the weight function  w = sum N w"""
+        return self._dpoly(self.den, orders)
+
+    def leibniz_residuals(self, get, orders):
+        """For a rational shape S = A / w the derivatives are characterised (inductively, w != 0) by
+             A^(k) = sum_i C(k,i) w^(i) S^(k-i)          (per direction; tensor form for surfaces).
+        get(*lower_orders) returns the implementation's derivative vector; returns (lhs, rhs) vectors."""
+        from itertools import product
+        from math import comb
+        lhs = self.Dnum(*orders)
+        dim = len(lhs)
+        rhs = [0] * dim
+        for idx in product(*[range(k + 1) for k in orders]):
+            c = 1
+            for k, i in zip(orders, idx):
+                c *= comb(k, i)
+            wd = self.Dden(*idx)
+            vec = get(*[k - i for k, i in zip(orders, idx)])
+            rhs = [r + c * wd * x for r, x in zip(rhs, vec)]
+        return lhs, rhs
 
     def D(self, *orders):
         """vector of the mixed partial derivative d^k1/du^k1 d^k2/dv^k2 ... of the position"""
-        core = self.core
-        out = []
-        for comp in self.pos:
-            f = core.sym(comp)
-            for v, k in zip(self.vars, orders):
-                if k:
-                    f = core.diff(f, v, k)
-            if not self.cx.symbolic:
-                for v, val in zip(self.vars, self.prm):
-                    f = core.subst(f, v, core.SymReal.const(Fraction(val)))
-                f = float(f.cval())
-            out.append(f)
-        return out
+        return [self._dpoly(comp, orders) for comp in self.pos]
